@@ -451,13 +451,86 @@ def run(rep: Report, ctx: Any) -> str:
                        "keys()/values() of one dict, range(len(..))) or their lengths are compared on every path to the walk; otherwise the "
                        "values beyond the shorter sequence get no member / property and a valid instance that uses them is not decoded")
     _no_silent_pairing(rep, ix, it)
-    rep.not_decided += ["that construct(transform(x)) == x on values (isoparse(x.isoformat()), which of two overlapping union members accepts a "
+    rep.rule("R02.14", "from_dict takes its copy of the source apart by pops and by nothing else: in the text of from_dict (under any condition of "
+                       "the template; a text put together in a set variable included) the working dict - the local bound to a copy of the "
+                       "source parameter - is bound once, to that copy; no item of it is deleted or assigned, no mutating method other than "
+                       "pop is called on it, and no pop stands as a statement of its own (a value popped and dropped is neither decoded nor "
+                       "kept as an additional property)")
+    _working_dict_frame(rep, mt, top, texts)
+    from .registries import check_enum_class_shared
+
+    rep.rule("R02.15", "a class shared by name holds the values of every declaration that names it: each property keeps its own value list "
+                       "but imports the one class registered under the name (the registration is overwritten by the last builder), so the "
+                       "enum builders may reuse a registered name only for an entry of the same kind with equal values - anything else is "
+                       "an error (the condition of R07.4 / R09.3, needed here because a member missing from the shared class makes from_dict "
+                       "raise for a valid instance)")
+    check_enum_class_shared(rep, ctx, "R02.15")
+    rep.not_decided += ["whether null is a value of a property (which kinds accept None: a guard in from_dict that reads, not writes, the "
+                        "source is value-level behaviour); what a function that is handed the working dict does to it",
+                        "that construct(transform(x)) == x on values (isoparse(x.isoformat()), which of two overlapping union members accepts a "
                         "value, recursion)", "a union member without a type check (const) is decoded in terminal form wherever it stands",
                         "the direction of a loop that walks a member list by a computed index or position (taken to run forwards); in which order "
                         "the parts of a union (anyOf, oneOf, type list) follow each other",
                         "sequences walked in step by index (for i, x in enumerate(a): b[i]) or cut by a slice / islice to another's length; "
                         "a length comparison made by the caller of the function that pairs"]
     return LEVEL
+
+
+# ---- R02.14 --------------------------------------------------------------------------------------------------------------------
+def _working_dict_frame(rep: Report, mt: Any, top: list[Any], texts: Any) -> None:
+    loc = f"{PKG}/templates/{mt.name}"
+    # the text of from_dict in output order, every condition taken (a forbidden statement under any condition is one), a hole written \x00;
+    # the texts a hole can be (a set variable holding code) are read on their own
+    full = ""
+    spans: list[tuple[int, Any]] = []
+    for fr in top:
+        spans.append((len(full), fr))
+        full += fr.text if fr.kind == "data" else "\x00"
+    m = re.search(r"(?m)^[ \t]*def from_dict\(\s*\w+[^,)]*,\s*(\w+)", full)
+    rep.require(m is not None, "def from_dict(cls, <source>) in model.py.jinja")
+    src = m.group(1)
+    end = re.compile(r"(?m)^[ \t]*(?:@\w|def |class )").search(full, m.end())
+    lo, hi = m.start(), (end.start() if end else len(full))
+    body = re.sub(r"(?m)#[^\n]*$", "", full[lo:hi])
+    extra: list[str] = []
+    for at, fr in spans:
+        if fr.kind == "expr" and lo <= at < hi:
+            for alt in texts.expr(fr.node):
+                if any(isinstance(p_, str) for p_ in alt.parts):
+                    extra.append(re.sub(r"\x00\d+\x01", "\x00", texts.render(alt)[0]))
+    copy_of = rf"(?:dict\(\s*{src}\s*\)|\{{\s*\*\*\s*{src}\s*\}}|{src}\.copy\(\)|copy(?:\.copy)?\(\s*{src}\s*\))"
+    # the working dict, by role: what is bound to a copy of the source, and what the declared keys are popped from
+    names = sorted(set(re.findall(rf"(?m)^[ \t]*(\w+)[ \t]*(?::[^=\n]+)?=[ \t]*{copy_of}[ \t]*$", body)) |
+                   {r for t in [body, *extra] for r in re.findall(r"(?<![\w.\x00])(\w+)\.pop\(\s*\"\x00\"", t)})
+    rep.require(names, f"the working dict of from_dict (a local bound to a copy of `{src}`, or the receiver of the pops)")
+    bad: list[str] = []
+    for w in names:
+        nm = rf"(?<![\w.\x00]){re.escape(w)}(?![\w\x00])"
+        for k, t in enumerate([body, *extra]):
+            for d in re.finditer(rf"\bdel\b[^\n]*?{nm}", t):
+                bad.append(f"{' '.join(t[d.start():_value_end(t, d.start())].split())[:80]}: an item of the working dict is deleted")
+            for b in re.finditer(nm + r"\[", t):
+                item = _call_text(t, b.start(), b.end() - 1)
+                if re.match(r"\s*(?:[-+*/%|&^@]|//|\*\*|<<|>>)?=(?!=)", t[b.start() + len(item):]):
+                    bad.append(f"{' '.join(t[b.start():_value_end(t, b.start())].split())[:80]}: an item of the working dict is assigned")
+            for c in re.finditer(nm + r"\.(\w+)\(", t):
+                if c.group(1) in _MUTATORS - {"pop"}:
+                    bad.append(f"{' '.join(_call_text(t, c.start(), c.end() - 1).split())[:80]}: the working dict is changed by .{c.group(1)}()")
+            if k:
+                continue       # (statement structure: only where the text is laid out in lines)
+            for c in re.finditer(rf"(?m)^[ \t]*{nm}\.pop\(", t):
+                call = _call_text(t, c.start(), c.end() - 1)
+                if re.match(r"[ \t]*(?:\n|$)", t[c.start() + len(call):]):
+                    bad.append(f"{' '.join(call.split())[:80]}: a value is popped and dropped")
+            for a in re.finditer(rf"(?m)^[ \t]*(?:for\b[^\n]*?\b)?{nm}[ \t]*(?::[^=\n]+)?=(?!=)[ \t]*", t):
+                v = t[a.end():_value_end(t, a.end())].strip()
+                if re.fullmatch(copy_of, v) is None:
+                    bad.append(f"{' '.join(t[a.start():_value_end(t, a.end())].split())[:80]}: the working dict is bound to something else than a copy of `{src}`")
+    shown = [re.sub("\x00", "<...>", b) for b in bad]
+    rep.check(not bad, "R02.14", "model.py.jinja::from_dict::working-dict-only-popped",
+              "from_dict changes its copy of the source otherwise than by popping the declared keys into the decoders: what is removed or "
+              "replaced there is neither decoded nor kept as an additional property, so a value of a valid instance is lost on decode",
+              where=loc, lhs=shown[:3], rhs=f"<d> = dict({src}); <local> = <d>.pop(\"<property.name>\"...); ... = <d>")
 
 
 # ---- R02.3 ---------------------------------------------------------------------------------------------------------------------
